@@ -455,6 +455,10 @@ func main() {
 			rep.Violate(v.sig, v.desc, b2)
 		}
 	}
+	additiveInTable := map[string]bool{}
+	for _, m := range loadMergers() {
+		additiveInTable[m.Tag] = m.Kind == "EmMerge" && m.Additive
+	}
 	handleFields := func(b fblock) {
 		out := runFields(b)
 		vs := judgeFields(b, out)
@@ -470,8 +474,8 @@ func main() {
 		}
 		key, _ := json.Marshal(b)
 		rep.Case(string(key), dup && zero, blockIn{Round: b.Round, Fields: &b})
-		// the penalty tag is not MfAdd in the table: its blocks are judged by the oracle only
-		if out.err == "" && b.Tag != "TagStakePoolPenalty" {
+		// a tag that is not MfAdd in the table (the penalty tag under the overwrite middleware) is judged by the oracle only
+		if out.err == "" && additiveInTable[b.Tag] {
 			cf.Add(coqFieldCase(b, out))
 			rep.CaseInputs = append(rep.CaseInputs, blockIn{Round: b.Round, Fields: &b})
 		}
@@ -563,7 +567,9 @@ func main() {
 		}
 		targets = append(targets, target{m.Tag, p.spec})
 	}
-	targets = append(targets, target{"TagStakePoolPenalty", payloads["TagStakePoolPenalty"].spec})
+	if !additiveInTable["TagStakePoolPenalty"] {
+		targets = append(targets, target{"TagStakePoolPenalty", payloads["TagStakePoolPenalty"].spec})
+	}
 	frnd := vh.NewRand(o.Seed ^ 0x5eed)
 	for _, t := range targets {
 		for mask := 0; mask < 1<<len(t.fs); mask++ {
